@@ -3,6 +3,8 @@
 from __future__ import annotations
 
 from dataclasses import dataclass
+from functools import reduce
+from operator import mul
 from typing import TYPE_CHECKING
 from typing import DefaultDict
 from typing import Iterable
@@ -191,19 +193,21 @@ class BlockNode(Node):
                 template_name=stack_item.source_name,
             )
 
+        drop = BlockDrop(
+            token=self.token,
+            context=context,
+            buffer=buffer,
+            name=self.name,
+            parent=stack_item.parent,
+        )
         ctx = context.copy(
-            namespace={
-                "block": BlockDrop(
-                    token=self.token,
-                    context=context,
-                    buffer=buffer,
-                    name=self.name,
-                    parent=stack_item.parent,
-                )
-            },
+            namespace={"block": drop},
             carry_loop_iterations=True,
             block_scope=True,
         )
+        # Loops entered by the overriding block count towards the loop iteration
+        # limit of whatever `block.super` renders.
+        drop.render_context = ctx
 
         return stack_item.block.block.render(ctx, buffer)
 
@@ -244,19 +248,21 @@ class BlockNode(Node):
                 template_name=stack_item.source_name,
             )
 
+        drop = BlockDrop(
+            token=self.token,
+            context=context,
+            buffer=buffer,
+            name=self.name,
+            parent=stack_item.parent,
+        )
         ctx = context.copy(
-            namespace={
-                "block": BlockDrop(
-                    token=self.token,
-                    context=context,
-                    buffer=buffer,
-                    name=self.name,
-                    parent=stack_item.parent,
-                )
-            },
+            namespace={"block": drop},
             carry_loop_iterations=True,
             block_scope=True,
         )
+        # Loops entered by the overriding block count towards the loop iteration
+        # limit of whatever `block.super` renders.
+        drop.render_context = ctx
         return await stack_item.block.block.render_async(ctx, buffer)
 
     def children(
@@ -335,7 +341,7 @@ class _BlockStackItem:
 class BlockDrop(Mapping[str, object]):
     """A `block` object with a `super` property."""
 
-    __slots__ = ("token", "buffer", "context", "name", "parent")
+    __slots__ = ("token", "buffer", "context", "name", "parent", "render_context")
 
     def __init__(
         self,
@@ -351,6 +357,8 @@ class BlockDrop(Mapping[str, object]):
         self.context = context
         self.name = name
         self.parent = parent
+        # The context the overriding block is rendered in, if that is not `context`.
+        self.render_context: Optional[RenderContext] = None
 
     def __str__(self) -> str:  # pragma: no cover
         return f"BlockDrop({self.name})"
@@ -365,7 +373,17 @@ class BlockDrop(Mapping[str, object]):
         # NOTE: We're not allowing chaining of references to `super` for now.
         # Just the immediate parent.
         buf = self.context.get_buffer(self.buffer)
-        with self.context.extend(
+        # The parent block is rendered in `context`, but inside every loop the
+        # overriding block has entered.
+        enclosing = 1
+        if self.render_context is not None:
+            enclosing = max(
+                1,
+                _loop_iterations(self.render_context)
+                // _loop_iterations(self.context),
+            )
+
+        with self.context.loop_iterations(enclosing), self.context.extend(
             {
                 "block": BlockDrop(
                     token=self.parent.token,
@@ -387,6 +405,18 @@ class BlockDrop(Mapping[str, object]):
 
     def __iter__(self) -> Iterator[str]:  # pragma: no cover
         return iter(["super"])
+
+
+def _loop_iterations(context: RenderContext) -> int:
+    """The product of the lengths of all repeating constructs _context_ is in."""
+    return max(
+        1,
+        reduce(
+            mul,
+            (loop.length for loop in context.loops),
+            context.loop_iteration_carry,
+        ),
+    )
 
 
 def _build_block_stacks(
